@@ -53,7 +53,15 @@ Record parrot := {
    (handshake_client.go:1345: "" for IP literals, trailing dots removed). *)
 Record cfg := {
   c_sni : bytes;
-  c_omit_psk : bool        (* Config.OmitEmptyPsk *)
+  c_omit_psk : bool;       (* Config.OmitEmptyPsk *)
+  (* Fields of the caller's Config that the ClientHello must NOT depend on. They are part of the
+     model's input so that the correspondence runs vary them; [apply_preset] never reads them:
+     SetTLSVers OVERWRITES Config.MinVersion/MaxVersion with the spec's range (u_conn.go:749-752) before
+     makeClientHelloForApplyPreset derives hello.vers from them, and the ALPN extension's
+     writeToUConn overwrites Config.NextProtos (the wire bytes come from the extension object). *)
+  c_min_version : N;       (* Config.MinVersion as the caller set it (0 = unset) *)
+  c_max_version : N;       (* Config.MaxVersion as the caller set it *)
+  c_next_protos : list bytes   (* Config.NextProtos as the caller set it *)
 }.
 
 (* what GREASEEncryptedClientHelloExtension.init() draws *)
